@@ -192,6 +192,9 @@ def run(prop, tier):
                 'flavour': fl, 'mir_bodies': len(facts['fns']), 'mir_opt_level': facts['mir_opt_level'],
                 'overflow_checks': facts['overflow_checks'], 'debug_assertions': facts['debug_assertions'],
                 'extract_s': facts['_extract_s']})
+            if facts.get('_build_script'):
+                rep.finding('BUILD-ENV build script', 'the crate now has a build script: what is compiled can depend on the build environment '
+                                                      '(cfg flags, generated code) in ways the extracted facts do not show; fails closed')
             probes = [e['var'] for e in facts.get('env_reads', []) if not e['var'].startswith('CARGO_')]
             if probes:
                 rep.finding('BUILD-ENV compile-time dependence on %s' % ','.join(sorted(probes)),
